@@ -9,6 +9,7 @@ CONSTANTS
     NotifyArm = TRUE
     AwaitBodyOnTimeout = TRUE
     Timeouts = TRUE
+    AcquireIgnoresTimeout = TRUE
     BroadcastAll = TRUE
 SPECIFICATION TraceSpec
 CONSTRAINT HighWater
